@@ -77,13 +77,21 @@ def inv1(rep, mod, table, rule='INV-1', only=None, floor=4):
 
 
 def all_paths_call(rep, rule, func, site, pattern, what, construct=''):
-    cfg = cfg_of(func)
-    p = pred_of(pattern)
-    ok = must_on_all_paths(cfg, p)
+    from .sem import paths_have
+    ok, wit = paths_have(func, [pattern])
     detail = '%s on every normal path' % what
     if not ok:
-        detail = {'missing': what, 'path': witness_path(cfg, cfg.entry, p)}
+        detail = wit if isinstance(wit, dict) else {'missing': what, 'why': wit}
     rep.check(rule, site, ok, detail, construct=construct or what, node=func)
+    return ok
+
+
+def all_paths_event(rep, rule, func, site, alternatives, text, construct):
+    from .sem import paths_have
+    ok, wit = paths_have(func, alternatives)
+    rep.check(rule, site, ok, text if ok else (wit if isinstance(wit, dict) else
+                                                {'missing': alternatives[0], 'why': wit}),
+              construct=construct, node=func)
     return ok
 
 
@@ -116,13 +124,9 @@ def loop_calls_all(rep, rule, func, site, source_patterns, call_pattern, what):
 def inv2(rep, mod, table):
     # BaseAdapterRegistry.changed
     f = find_def(mod, 'BaseAdapterRegistry.changed')
-    cfg = cfg_of(f)
-    bump = any_pred(pred_of('self._generation += $n', 'exec'),
-                    pred_of('self._generation = self._generation + $n', 'exec'))
-    rep.check('INV-2', 'BaseAdapterRegistry.changed',
-              must_on_all_paths(cfg, bump),
-              'generation counter is bumped on every path', construct='generation',
-              node=f)
+    all_paths_event(rep, 'INV-2', f, 'BaseAdapterRegistry.changed',
+                    ['self._generation += $n', 'self._generation = self._generation + $n'],
+                    'generation counter is bumped on every path', 'generation')
     all_paths_call(rep, 'INV-2', f, 'BaseAdapterRegistry.changed',
                    'self._v_lookup.changed($$a)',
                    'self._v_lookup.changed(...)')
@@ -186,17 +190,11 @@ def inv2(rep, mod, table):
                 'LookupBase.__init__ no longer creates %s (has %s)'
                 % (CACHES, sorted(fields)))
     ch = find_def(mod, 'LookupBase.changed')
-    cfg = cfg_of(ch)
     for fld in sorted(fields):
-        p = any_pred(pred_of('self.%s.clear()' % fld),
-                     pred_of('self.%s = {}' % fld, 'exec'),
-                     pred_of('self.%s = dict()' % fld, 'exec'))
-        ok = must_on_all_paths(cfg, p)
-        rep.check('INV-2', 'LookupBase.changed', ok,
-                  'cache field %s is emptied on every path' % fld if ok else
-                  {'field_not_cleared': fld,
-                   'path': witness_path(cfg, cfg.entry, p)},
-                  construct='clear:' + fld, node=ch)
+        all_paths_event(rep, 'INV-2', ch, 'LookupBase.changed',
+                        ['self.%s.clear()' % fld, 'self.%s = {}' % fld,
+                         'self.%s = dict()' % fld],
+                        'cache field %s is emptied on every path' % fld, 'clear:' + fld)
     # VerifyingBase.changed delegates to the base clear and re-snapshots
     vch = find_def(mod, 'VerifyingBase.changed')
     all_paths_call(rep, 'INV-2', vch, 'VerifyingBase.changed',
@@ -206,25 +204,19 @@ def inv2(rep, mod, table):
 
 def inv3(rep, mod, table):
     f = find_def(mod, 'BaseAdapterRegistry._setBases')
-    cfg = cfg_of(f)
-    st = pred_of("self.__dict__['__bases__'] = bases", 'exec')
-    ro_ = pred_of('self.ro = ro.ro(self)', 'exec')
-    ch = pred_of('self.changed($$a)')
+    from .sem import paths_order
+    ST = ["self.__dict__['__bases__'] = bases"]
+    RO = ['self.ro = ro.ro(self)']
+    CH = ['self.changed($$a)']
     site = 'BaseAdapterRegistry._setBases'
-    rep.check('INV-3', site, must_on_all_paths(cfg, st),
-              'stores the new bases on every path', construct='store', node=f)
-    rep.check('INV-3', site, must_on_all_paths(cfg, ro_),
-              'recomputes self.ro = ro.ro(self) on every path', construct='ro',
-              node=f)
-    rep.check('INV-3', site, must_on_all_paths(cfg, ch),
-              'calls self.changed() on every path', construct='changed', node=f)
-    # order: store < ro < changed  (changed dominated by ro, ro by store)
-    okorder = True
-    for n in cfg.nodes:
-        if n.ast is not None and ro_(n):
-            okorder = okorder and cfg.dominated_by(n, st)
-        if n.ast is not None and ch(n):
-            okorder = okorder and cfg.dominated_by(n, ro_)
+    all_paths_event(rep, 'INV-3', f, site, ST, 'stores the new bases on every path',
+                    'store')
+    all_paths_event(rep, 'INV-3', f, site, RO,
+                    'recomputes self.ro = ro.ro(self) on every path', 'ro')
+    all_paths_event(rep, 'INV-3', f, site, CH, 'calls self.changed() on every path',
+                    'changed')
+    # order: store < ro < changed
+    okorder = paths_order(f, ST, RO) and paths_order(f, RO, CH)
     rep.check('INV-3', site, okorder,
               'order: bases stored, then ro recomputed from them, then changed()',
               construct='order', node=f)
@@ -248,15 +240,11 @@ def inv3(rep, mod, table):
                    'super()._setBases(bases)', 'super()._setBases(bases)')
     # constructor initialises through the property
     init = find_def(mod, 'BaseAdapterRegistry.__init__')
-    cfg = cfg_of(init)
-    rep.check('INV-3', 'BaseAdapterRegistry.__init__',
-              must_on_all_paths(cfg, pred_of('self.__bases__ = bases', 'exec')),
-              'constructor assigns __bases__ through the property (initial '
-              'ro + changed)', construct='init', node=init)
-    ok = True
-    for n in cfg.nodes:
-        if n.ast is not None and pred_of('self.__bases__ = bases', 'exec')(n):
-            ok = cfg.dominated_by(n, pred_of('self._createLookup()'))
+    all_paths_event(rep, 'INV-3', init, 'BaseAdapterRegistry.__init__',
+                    ['self.__bases__ = bases'],
+                    'constructor assigns __bases__ through the property (initial '
+                    'ro + changed)', 'init')
+    ok = paths_order(init, ['self._createLookup()'], ['self.__bases__ = bases'])
     rep.check('INV-3', 'BaseAdapterRegistry.__init__', ok,
               '_createLookup() precedes the first changed()', construct='lookup-first',
               node=init)
@@ -270,23 +258,15 @@ def subscribe_on_all_exits(rep, mod, rule, only=None):
         if only is not None and unc not in only:
             continue
         f = find_def(mod, 'AdapterLookupBase.' + unc)
-        cfg = cfg_of(f)
-        p = pred_of('self._subscribe(*required)')
-        ok = must_on_all_paths(cfg, p)
-        # `required` at that point is the full tuple (only rebinding allowed:
-        # required = tuple(required))
-        rebinds = [n for n in walk_local(f) if isinstance(n, ast.Assign)
-                   and any(isinstance(t, ast.Name) and t.id == 'required'
-                           for t in n.targets)]
-        okreq = all(match('tuple(required)', r.value) is not None
-                    for r in rebinds)
+        from .sem import paths_have
+        # resolved: the argument is the method's own `required` (as a tuple)
+        ok, wit = paths_have(f, ['self._subscribe(*required)',
+                                 'self._subscribe(*tuple(required))'])
+        okreq = True
         detail = 'self._subscribe(*required) on every normal exit (hit and miss)'
         if not ok:
-            detail = {'missing': 'self._subscribe(*required)',
-                      'path': witness_path(cfg, cfg.entry, p)}
-        elif not okreq:
-            detail = 'required is rebound to %s before _subscribe' % [
-                norm_src(r.value) for r in rebinds]
+            detail = wit if isinstance(wit, dict) else {'missing':
+                                                        'self._subscribe(*required)'}
         rep.check(rule, 'AdapterLookupBase.' + unc, ok and okreq, detail,
                   construct='subscribe', node=f)
 
@@ -353,63 +333,23 @@ def inv4(rep, mod, table):
               construct='subscribe-all', node=f)
     # changed(): unsubscribe + clear
     f = find_def(mod, 'AdapterLookupBase.changed')
-    cfg = cfg_of(f)
-    rep.check('INV-4', 'AdapterLookupBase.changed',
-              must_on_all_paths(cfg, pred_of('self._required.clear()')),
-              'the subscription record is cleared together with the caches '
-              '(so the next uncached lookup subscribes again)',
-              construct='required.clear', node=f)
-    # cache fills only behind the matching uncached call
-    for unc, meth, field in pairs:
-        f = find_def(mod, 'LookupBase.' + meth)
-        cfg = cfg_of(f)
-        writes, D = shared.content_writes(f, CACHES)
-        # `cache = self._getcache(...)` also yields a cache container
-        for n in walk_local(f):
-            if isinstance(n, ast.Assign) and match('self._getcache($$a)', n.value) is not None:
-                for t in n.targets:
-                    if isinstance(t, ast.Name):
-                        D.add(t.id)
-        fills = []
-        for n in walk_local(f):
-            if isinstance(n, ast.Assign):
-                for t in n.targets:
-                    if isinstance(t, ast.Subscript) and \
-                            isinstance(t.value, ast.Name) and t.value.id in D:
-                        if not shared.is_fresh_container(f, n.value, n,
-                                                         factories=()):
-                            fills.append(n)
-        if not fills:
-            rep.check('INV-4', 'LookupBase.' + meth, False,
-                      'no cache fill found (anchor)', construct='fill', node=f)
-            continue
-        for st in fills:
-            v = st.value
-            okv = False
-            detail = 'stored value `%s` is not a plain name' % norm_src(v)
-            if isinstance(v, ast.Name):
-                node = cfg.node_of(st)
-                defs = reaching_defs(cfg, node, v.id)
-                vals = [def_value(d) if d is not cfg.entry else None
-                        for d in defs]
-                want = 'self.%s($$a)' % unc
-                okv = bool(vals) and all(
-                    x is not None and match(want, x) is not None for x in vals)
-                detail = ('value stored into the cache comes only from self.%s(...): '
-                          'reaching definitions %s' % (
-                              unc, [norm_src(x) if x is not None else 'param/unbound'
-                                    for x in vals]))
-                if okv:
-                    # arguments are the method's own required/provided[/name]
-                    call = vals[0]
-                    names = [a.id if isinstance(a, ast.Name) else norm_src(a)
-                             for a in call.args]
-                    exp = ['required', 'provided'] + (
-                        ['name'] if meth == 'lookup' else [])
-                    okv = names == exp and not call.keywords
-                    detail += '; arguments %s (required %s)' % (names, exp)
-            rep.check('INV-4', 'LookupBase.' + meth, okv, detail,
-                      construct='fill:' + norm_src(st.targets[0]), node=st)
+    all_paths_event(rep, 'INV-4', f, 'AdapterLookupBase.changed',
+                    ['self._required.clear()', 'self._required = {}'],
+                    'the subscription record is cleared together with the caches '
+                    '(so the next uncached lookup subscribes again)', 'required.clear')
+    # cache fills only behind the matching uncached call (path summaries)
+    _sem.cached_lookup_spec(rep, 'INV-4', find_def(mod, 'LookupBase.lookup'),
+                            'LookupBase.lookup', '_uncached_lookup',
+                            '_getcache', 'single-or-tuple', True,
+                            ['required', 'provided', 'name'])
+    _sem.cached_lookup_spec(rep, 'INV-4', find_def(mod, 'LookupBase.lookupAll'),
+                            'LookupBase.lookupAll', '_uncached_lookupAll',
+                            '_mcache', 'tuple', False,
+                            ['required', 'provided'])
+    _sem.cached_lookup_spec(rep, 'INV-4', find_def(mod, 'LookupBase.subscriptions'),
+                            'LookupBase.subscriptions', '_uncached_subscriptions',
+                            '_scache', 'tuple', False,
+                            ['required', 'provided'])
     # other LookupBase methods never fill a cache with a value
     cls = find_def(mod, 'LookupBase')
     for name, f in methods_of(cls).items():
